@@ -138,13 +138,16 @@ class SqwBuilder:
         rows: tuple[str, ...] = _DEFAULT_PIX_ROWS,
         row_units: tuple[str | None, ...] = _DEFAULT_PIX_ROW_UNITS,
     ) -> SqwBuilder:
+        # Process the inputs before modifying the builder such that a rejected call
+        # (e.g., bin-edge coordinates) does not leave a partial update behind.
+        pix_wrap = _split_pix_rows(data, rows, row_units)
+        metadata = self._make_pix_metadata(pix_wrap)
+
         self._n_dims = n_dims
         self._data_blocks[("experiment_info", "expdata")] = SqwMultiIXExperiment(
             experiments
         )
-
-        self._pix_wrap = _split_pix_rows(data, rows, row_units)
-        metadata = self._make_pix_metadata(self._pix_wrap)
+        self._pix_wrap = pix_wrap
         self._data_blocks[("pix", "metadata")] = metadata
         self._data_blocks[("", "main_header")].nfiles = len(experiments)
         return self
